@@ -58,6 +58,7 @@ type Case struct {
 	SchemaID   string          `json:"schema_id,omitempty"` // leaf: schema, Value
 	Value      json.RawMessage `json:"value,omitempty"`
 	GoType     string          `json:"go_type,omitempty"` // leaf: the Go type whose Validate accepted Value (re-run on replay)
+	Signed     bool            `json:"signed,omitempty"`  // Input is a signed envelope: read, validated and written as it stands (signed.go)
 }
 
 // check is one (schema id, instance) pair to be judged.
@@ -328,7 +329,7 @@ func classifyOne(ck *check, e pyErr) string {
 			return knownURLNotURI
 		}
 	}
-	return ""
+	return classifyHole(ck, e, val) // holes found by the schema-guided sweep (sweep.go)
 }
 
 // isURIish is the necessary RFC 3986 condition both judges assert for `format: uri`.
